@@ -10,7 +10,6 @@ NOT_APPLICABLE = {
     "C05": "invariant over all reachable table states under Insert/Update::exec; same measured obstacle as C03 (the cell-validity conjunct is decided under C07)",
     "C11": "stream-name packing builds Strings char by char from symbolic chars: measured 18-21 GB OOM for 1-2 symbolic chars and 50 GB in SAT conversion with concrete UTF-8 width; listing/contents/aliasing live in the cfb dependency",
     "C12": "Join::exec/Select::exec need the container and build Table/Column clones per result row; Select::exec of one 2-row table on a model container did not leave symbolic execution in 15 min / 8 GB",
-    "C16": "holds by a type-level fact (read API has no Write bound) and a whole-object protocol (finisher is None until a mutating call) observable only on a real Package over cfb; there is no arithmetic or data-dependent kernel to make symbolic",
 }
 
 # ---------------------------------------------------------------- C13
@@ -29,7 +28,9 @@ for op in _wide + _narrow:
                       bounds="unwind 4; %s" % ("left kind fixed, 5 right kinds" if op in _wide else "9 kind pairs {Null,Int,'a'}^2"),
                       functions=["expr::Expr::binop", "expr::BinOp::eval"]))
 for n in ["c13_ordering_consistent", "c13_unop_neg", "c13_unop_bitnot", "c13_unop_boolnot", "c13_and_or",
-          "c13_and_or_literal_a", "c13_and_or_literal_b", "c13_short_circuit", "c13_mul_exact16", "c13_div_exact16"]:
+          "c13_and_or_literal_a", "c13_and_or_literal_b", "c13_short_circuit", "c13_mul_exact16", "c13_div_exact16",
+          "c13_unop_twice_neg_neg", "c13_unop_twice_bitnot_bitnot", "c13_unop_twice_not_not", "c13_unop_twice_neg_bitnot",
+          "c13_unop_twice_not_neg", "c13_unop_twice_bitnot_not"]:
     _c13.append(H("proofs::c13::" + n, timeout=900, symbolic="operand Values as above (exact16: both operands any i16)",
                   bounds="unwind 4", functions=["expr::UnOp::eval", "expr::Ast::eval", "expr::Expr::unop"]))
 PROPS["C13"] = {
@@ -59,7 +60,9 @@ PROPS["C18"] = {
     "engine": "mir-smt+kani",
     "mir": True,
     "kani": [Harness("proofs::propset::c18_timestamp_io", timeout=300, symbolic="the 64-bit tick count", bounds="8 bytes; unwind 10",
-                     functions=["timestamp::Timestamp::write_to", "timestamp::Timestamp::read_from"])],
+                     functions=["timestamp::Timestamp::write_to", "timestamp::Timestamp::read_from"]),
+             Harness("proofs::propset::c09_propvalue_read_filetime", timeout=600, mem_gb=5, symbolic="the 8 FILETIME bytes (every tick value, 0 included), stream length",
+                     bounds="type tag concrete (FILETIME)", functions=["propset::PropertyValue::read", "timestamp::Timestamp::read_from"])],
     "technique": "symbolic execution of the MIR of the four timestamp conversion functions into SMT-LIB2 over "
                  "integers with range side conditions; z3 decides each law, cvc5 must agree",
     "claim": "For the MIR of timestamp_from_system_time, system_time_from_timestamp, duration_to_timestamp_delta and "
@@ -294,6 +297,7 @@ PROPS["C10"] = {
          functions=["propset::PropertyValue::write", "propset::PropertyValue::encoded_size_including_padding", "timestamp::Timestamp::write_to"]),
        H(_PS + "c10_codepage_property", timeout=300, symbolic="code page id (any i32 that names a code page: all 26)", bounds="loop-free",
          functions=["propset::PropertySet::set_codepage", "propset::PropertySet::set", "codepage::CodePage::from_id", "codepage::CodePage::id"]),
+       H(_PS + "c09_propvalue_read_filetime", timeout=600, mem_gb=5, symbolic="8 FILETIME bytes, stream length", bounds="type tag concrete", functions=["propset::PropertyValue::read"]),
        H(_PS + "c10_propset_ints_roundtrip", tier="thorough", timeout=2400, mem_gb=24, symbolic="I4/I2/FILETIME values; ids concrete",
          bounds="2 properties; unwind 10", functions=["propset::PropertySet::write", "propset::PropertySet::read"])],
     "bounds": "one property value at a time; 11 string shapes; all scalar payloads; all 26 code pages for property 1",
@@ -306,12 +310,13 @@ PROPS["C20"] = {
     "level": "model_checking", "engine": "kani+mir-smt", "mir": True,
     "technique": "bounded model checking (Kani/CBMC) of StringRef::write for every reference number; MIR of "
                  "Table::read_rows' integer prefix symbolically executed into SMT (z3/cvc5) for every stream length and row size",
-    "claim": "Two of the five limits. (1) For every reference number 1..0xFFFFFF: in two-byte mode StringRef::write returns "
+    "claim": "Three of the five limits. (3) For every number of columns, create_table's argument checks (MIR prefix) are passed "
+             "exactly for a valid name, 1..=32 columns and a primary key; 33+ columns are an error, never a panic. (1) For every reference number 1..0xFFFFFF: in two-byte mode StringRef::write returns "
              "an error exactly when the number exceeds 0xFFFF (never truncates, never panics) and otherwise round-trips; "
              "three-byte mode always writes 3 bytes. (2) For every u64 stream length and row size, Table::read_rows' prefix "
              "cannot divide by zero or overflow, allocates exactly data_length / row_size rows only when that is <= 65536 "
              "and returns the limit error exactly when it is larger. The asymmetry (no limit on the write side), the "
-             "32-column check, incref's 65,536th-string panic and name-length limits are not decided here.",
+             "incref's 65,536th-string panic and name-length limits are not decided here.",
     "note": "Trusted: Kani/CBMC; MIR translator, models of seek/rewind/sum (fresh integers), z3/cvc5. create_table's column "
             "limit, incref's 65,536th-string panic (needs a 65,535-entry pool) and name-length limits need Package/cfb.",
     "kani": [H(_CELLS + "c20_stringref_width", timeout=300, symbolic="reference number 1..0xFFFFFF, width flag", bounds="unwind 6",
@@ -334,8 +339,10 @@ PROPS["C19"] = {
              "every (parent operator, operand slot, child operator) the child is parenthesised whenever the ladder OR < "
              "AND < NOT < comparison < | < ^ < & < shifts < + - < * / < unary - ~ (binary levels left-associative) "
              "requires it. That the printed text re-parses to the printed tree for trees of any height follows by the "
-             "usual structural induction, which is the stated paper step. Statement printers (SELECT/INSERT/UPDATE/"
-             "DELETE) loop over rows/columns and are outside.",
+             "usual structural induction, which is the stated paper step. Of the statement printers, Select::format_for_join "
+             "(loop-free) is decided too: a join operand is printed as a bare table name only if it has no projection, no "
+             "condition and is a plain table, otherwise as a parenthesised sub-select. The Display impls of SELECT/INSERT/"
+             "UPDATE/DELETE themselves loop over rows/columns and are outside.",
     "note": "Trusted: the MIR-to-SMT translator (validated on every run by rendering the nine expressions of the repo's "
             "own display test from the derived templates), the reference ladder in vlib/mir_engine.py, z3/cvc5. A "
             "counterexample triple is rebuilt through the public Expr constructors, printed by the real Display, "
@@ -407,7 +414,8 @@ PROPS["C07"] = {
 # ---------------------------------------------------------------- C17
 _C17Q = ["c17_code_preserved", "c17_tag_total", "c17_unknown_region_en", "c17_unknown_region_zh", "c17_unknown_region_de",
          "c17_unknown_region_fr", "c17_unknown_region_es", "c17_unknown_region_ar", "c17_unknown_language",
-         "c17_well_known_a", "c17_well_known_b", "c17_well_known_c", "c17_well_known_d", "c17_regional_tag_unique"]
+         "c17_well_known_a", "c17_well_known_b", "c17_well_known_c", "c17_well_known_d", "c17_well_known_e",
+         "c17_unknown_language_with_known_prefix", "c17_regional_tag_unique"]
 PROPS["C17"] = {
     "level": "model_checking", "engine": "kani",
     "technique": "bounded model checking (Kani/CBMC) of Language::{from_code, code, tag, from_tag}: all 65,536 codes "
@@ -453,6 +461,8 @@ PROPS["C09"] = {
         H(_CELLS + "c02_bitfield_vs_spec", timeout=300, symbolic="the whole i32 bit-field", bounds="loop-free", functions=["column::ColumnBuilder::with_bitfield"]),
         H(_POOL + "c09_pool_header_total", timeout=900, symbolic="14 header bytes and the stream length 0..14", bounds="unwind 8", functions=["stringpool::StringPoolBuilder::read_from_pool", "codepage::CodePage::from_id"]),
         H(_POOL + "c09_pool_data_short", timeout=900, symbolic="two entry lengths 0..2, reference counts, available data bytes 0..3", bounds="unwind 8", functions=["stringpool::StringPoolBuilder::build_from_data"]),
+        H(_POOL + "c09_pool_data_non_ascii", timeout=600, symbolic="reference count; data bytes 'a', 0xE9 concrete", bounds="1 entry of 2 bytes; unwind 8", functions=["stringpool::StringPoolBuilder::build_from_data", "codepage::CodePage::decode"]),
+        H("proofs::c14::c14_ascii_decode_shapes", timeout=600, symbolic="none: concrete bytes incl. 0x80, 0xff under US-ASCII", bounds="unwind 8", functions=["codepage::CodePage::decode"]),
         H(_POOL + "c09_pool_read_ops_total", timeout=600, symbolic="reference counts (no invariant), reference number 1..0xFFFFFF", bounds="2 entries; unwind 8", functions=["stringpool::StringPool::get", "stringpool::StringPool::refcount"]),
         H(_POOL + "c09_pool_write_ops_guarded", timeout=900, symbolic="reference counts, entry index, operation", bounds="2 entries; outside the known-finding regions", functions=["stringpool::StringPool::decref", "stringpool::StringPool::incref"]),
         H(_POOL + "c09_kf_decref_dangling", timeout=600, known="C09-decref-dangling", symbolic="reference number 3..0xFFFFFF", bounds="witness of a known finding", functions=["stringpool::StringPool::decref"]),
@@ -469,4 +479,25 @@ PROPS["C09"] = {
     "bounds": "buffers of 4-14 bytes; pools of 2 entries",
     "outside": "arbitrary files, Package::open, read_rows, joins, FFI",
     "assumptions": _KASSUME,
+}
+
+# ---------------------------------------------------------------- C16
+PROPS["C16"] = {
+    "level": "model_checking", "engine": "mir-smt", "mir": True,
+    "technique": "symbolic execution of the MIR of Package's &mut-self read entry points and of the three ways of closing, "
+                 "from an arbitrary state of the dirty flags, with the container as uninterpreted events; z3/cvc5 decide "
+                 "that no path arms the finisher, changes a flag or issues a mutating container call",
+    "claim": "The project-code part of the property. From any state of the dirty flags and with the finisher armed or not: "
+             "select_rows and read_stream (the only read operations that take &mut self; the others take &self and cannot "
+             "mutate by the type system) never arm the finisher, never change is_summary_info_modified or the pool's modified "
+             "flag and issue no create/remove/write call on the container; flush, into_inner and Drop on a package whose "
+             "finisher is not armed run no finisher and issue no create/remove/write call. That Package::open constructs the "
+             "package unarmed and clean (a loop-heavy function), and that cfb's own open/read/flush paths do not write, are "
+             "outside the claim.",
+    "note": "Trusted: the MIR translator, the protocol models (evidence), z3/cvc5; calls to functions outside the crate are "
+            "arbitrary-result events. Outside: Package::open's construction of the initial state, the cfb dependency, "
+            "byte-identity of the medium (a whole-file observation).",
+    "bounds": "one call from an arbitrary flag state; both finisher states",
+    "outside": "Package::open, cfb internals, sequences of read calls (each call is one inductive step)",
+    "assumptions": list(__import__("vlib.mir_protocol", fromlist=["x"]).PROTOCOL_MODELS_DOC),
 }
